@@ -144,6 +144,13 @@ class C12(Prop):
             lines.append(case(";".join(fields + ["0", "1"])))
             lines.append(case(";".join(fields + [rng.choice(["", "x", "256", "-1"])])))
         yield "very-long-lists", lines
+        # lists past every 16-bit count: the field that decides comes after position 65535 / 70000
+        lines = []
+        for count in ([66000, 70001] if tier == "thorough" else [66000]):
+            fields = [rng.choice(["1", "3", "4", "31", "42", "0", "22", "39"]) for _ in range(count)]
+            lines.append(case(";".join(fields + ["0", "1", "35"])))
+            lines.append(case(";".join(fields + ["0", "4", "x"])))
+        yield "lists-beyond-65535-fields", lines
 
     def nontrivial(self, line, impl):
         return impl.startswith("fg=") and impl != "fg=none bg=none ul=none eff=0"
